@@ -1171,7 +1171,11 @@ def compile_generated(files, outdir, seen_dir=None):
                 if out:
                     fails.append((name, out))
                 continue
-        rc, out = bt.cc(['-ansi', '-pedantic-errors', '-fsyntax-only', '-I', outdir, os.path.join(outdir, name)],
+        # a tracer configured for a big-endian target refuses to compile for this (little-endian) host by design
+        # (`#error` guard on __BYTE_ORDER__): check it as the compiler of such a target would see it
+        be = ['-Wno-builtin-macro-redefined', '-U__BYTE_ORDER__', '-D__BYTE_ORDER__=__ORDER_BIG_ENDIAN__'] \
+            if '__BYTE_ORDER__ != __ORDER_BIG_ENDIAN__' in str(files[name]) else []
+        rc, out = bt.cc(['-ansi', '-pedantic-errors', '-fsyntax-only'] + be + ['-I', outdir, os.path.join(outdir, name)],
                         cwd=outdir, timeout=120)
         out = re.sub(r'/\S*/(gen[^/ ]*/)', r'\1', out)[-1500:] if rc != 0 else ''
         if resf is not None:
